@@ -57,6 +57,13 @@ async def check_message(client, seq, b, errors, where):
     ms = re.search(rb'RFC822\.SIZE (\d+)', resp)
     if not ms or int(ms.group(1)) != len(b):
         errors.append(f'{where}: RFC822.SIZE {ms.group(1) if ms else None} for {len(b)} octets')
+    for items in (b'RFC822.SIZE', b'FAST', b'(UID RFC822.SIZE)'):
+        # the size asked for WITHOUT any content item (a backend may then skip loading the content)
+        r2 = await client.cmd(b'FETCH %d ' % seq + items)
+        ms = re.search(rb'RFC822\.SIZE (\d+)', b''.join(r2['untagged']))
+        if not ms or int(ms.group(1)) != len(b):
+            errors.append(f'{where}: FETCH {items.decode()} reports RFC822.SIZE {ms.group(1).decode() if ms else None} for {len(b)} octets')
+            break
     hdr, txt = literal_payload(resp, b'BODY[HEADER]'), literal_payload(resp, b'BODY[TEXT]')
     if (hdr or b'') + (txt or b'') != b:
         errors.append(f'{where}: HEADER {hdr!r:.50} + TEXT {txt!r:.50} != {b!r:.60}')
@@ -127,6 +134,15 @@ async def scenario(b, backend='dict'):
         await c.cmd(b'SELECT Copy')
         await check_message(c, 1, b, errors, 'copy')
         await check_message(c, 2, b, errors, 'moved')
+        # a partial range over SEVERAL messages in one command: every one of them gets its own b[o:o+n]
+        for o, n in ((0, 3), (1, 2), (2, 5)):
+            r = await c.cmd(b'FETCH 1:2 (BODY.PEEK[]<%d.%d>)' % (o, n))
+            for u in r['untagged']:
+                if b' FETCH ' in u[:20]:
+                    got = literal_payload(u, b'BODY[]<%d>' % o)
+                    if (got or b'') != b[o:o + n]:
+                        errors.append(f'FETCH 1:2 (BODY[]<{o}.{n}>): message {u.split()[1].decode()} got {got!r:.50}, expected {b[o:o + n]!r:.50}')
+                        break
     if len(errors) == n_before:
         # octet count of a single-part message in BODYSTRUCTURE vs. the data BODY[1] returns
         r = await c.cmd(b'FETCH 1 (BODYSTRUCTURE BODY.PEEK[1])')
